@@ -277,6 +277,28 @@ PROPS['C04'] = dict(
 )
 
 
+def cram_streams(tier):
+    n = {'quick': 32000, 'extended': 200000, 'thorough': 1200000}[tier]
+    return [dict(name='cram-docs', harness=['docs', 'cram', str(n), '{seed}', '{shard}', '{nshards}'], driver='cram')]
+
+
+PROPS['C07'] = dict(
+    family='line', tags={'K': 'cram'},
+    theorems=['C07_parse_render', 'C07_defaults'],
+    streams=cram_streams,
+    spec_kinds=['SPEC:C07'], corr_kinds=['DIFF:cram'],
+    case_format='K <AST: T<hex> title; C<hex> comment; B blank; X<hex cmd>,<hex continuation>.../E<hex expectation>,N<digits>... test  (~ = malformed soup)>|<hex document text>|ok:<title^expression^expectations^code^line^config per test>/err/panic',
+    rule='3 of 4 documents are rendered from a random AST of the Cram grammar (0-10 blocks: titles incl. `$ x`, `> x`, `[1]`, one leading space; # comments; blanks; tests with 0-2 continuations and 0-4 body lines '
+         'drawn from empty / whitespace-only / `$` / `$x` / `> x` / `[x]` / `[1] ` / `# ...` / too-large [digits] / glob, regex, quantified expectations / [digits] with leading zeros), joined with LF or CRLF, with or without final newline; '
+         '1 of 4 is a soup over 23 line shapes that differ by single spaces. Non-trivial: more than one line; distinct by document text',
+    manifest=dict(text='Machine-checked theorem (Coq): for every well-formed document AST of the Cram grammar, the model of CramParser::parse applied to its rendering returns exactly the tests the AST denotes -- commands with continuations, expectation lines verbatim (indentation removed), exit code, nearest title since the previous test, 1-based line of the `$` line -- by an invariant over the parser state (abstract open/closed state). Defaults pinned against regenerated constants. Tied to /repo by running the real CramParser on documents rendered from random ASTs (the specification function, not the parser model, predicts the result) and on malformed soups (parser model vs implementation, no panics).',
+                  technique='Coq proof (state-machine invariant over document blocks, induction on the document) + differential correspondence + grammar-by-construction oracle'),
+    exhaustive={'quick': False, 'thorough': False},
+    assumptions=['str::lines is modelled by str_lines (LF / CRLF terminators; no final empty line)',
+                 'ExpectationMaker::parse success is the parameter pe_ok (C08); the generator only emits well-formed regex/escaped expectations'],
+)
+
+
 def run_one(prop, inp, ctx):
     """re-run one case through the implementation and the model; returns CASE lines"""
     cfg = PROPS[prop]
